@@ -187,6 +187,8 @@ class UBXMessage:
                     offset = self._set_attribute_single(
                         anam, numr, offset, index, **kwargs
                     )
+                    if not index:  # flags may size a later repeating group
+                        self._set_unparsed_flags(anam, adef[1])
             else:  # repeating group of attributes
                 (offset, index) = self._set_attribute_group(
                     adef, offset, index, **kwargs
@@ -227,14 +229,18 @@ class UBXMessage:
             elif anam == "None":  # number of repeats 'variable by size'
                 gsiz = self._calc_num_repeats(gdict, self._payload, offset, 0)
             else:  # number of repeats is defined in named attribute
-                gsiz = getattr(self, anam)
+                gsiz = getattr(self, anam, None)
+                if gsiz is None:  # flag held in an unparsed bitfield
+                    gsiz = getattr(self, f"_bf_{anam}")
                 # special handling for ESF-MEAS message types
                 if (
                     self._ubxClass == b"\x10"
                     and self._ubxID == b"\x02"
                     and self._mode == SET
                 ):
-                    if getattr(self, "calibTtagValid", 0):
+                    if getattr(
+                        self, "calibTtagValid", getattr(self, "_bf_calibTtagValid", 0)
+                    ):
                         gsiz += 1
             # recursively process each group attribute,
             # incrementing the payload offset and index as we go
@@ -313,6 +319,24 @@ class UBXMessage:
             setattr(self, anami, val)
 
         return offset + asiz
+
+    def _set_unparsed_flags(self, anam: str, bdict: dict):
+        """
+        When bitfields are left unparsed (parsebitfield=0), keep the value of each
+        individual flag in a private "_bf_<name>" attribute, so that a repeating
+        group whose size is held in a flag (e.g. ESF-MEAS numMeas) can still be processed.
+
+        :param str anam: name of bitfield attribute
+        :param dict bdict: bitfield dictionary
+
+        """
+
+        bitfield = int.from_bytes(getattr(self, anam), "little")
+        bfoffset = 0
+        for key, keyt in bdict.items():
+            atts = attsiz(keyt)
+            setattr(self, f"_bf_{key}", (bitfield >> bfoffset) & ((1 << atts) - 1))
+            bfoffset += atts
 
     def _set_attribute_bitfield(
         self, atyp: str, offset: int, index: list, **kwargs
